@@ -21,9 +21,9 @@ def mech(tier, seed):
 
 def generators(tier, seed):
     if tier == "quick":
-        return [dict(module="MC_C01", cfg="MC_C01_q1", workers=4, limit=12000),
+        return [dict(module="MC_C01b", cfg="MC_C01b", workers=2), dict(module="MC_C01", cfg="MC_C01_q1", workers=4, limit=12000),
                 dict(module="MC_C01", cfg="MC_C01_q2", workers=4, limit=12000)]
-    return [dict(module="MC_C01", cfg="MC_C01_q1", workers=8),
+    return [dict(module="MC_C01b", cfg="MC_C01b", workers=2), dict(module="MC_C01", cfg="MC_C01_q1", workers=8),
             dict(module="MC_C01", cfg="MC_C01_q2", workers=8)]
 
 MANIFEST = dict(
